@@ -146,3 +146,25 @@ theorem totalNumberOfPatches_rect (w : Quad ℝ) (fl xa ya : Nat) (x0 y0 sx sy z
   Sparrow.totalNumberOfPatches_rect w fl xa ya x0 y0 sx sy z p h hp hpx hpy junk
 
 end Sparrow.Props.C08.TranslatedTiling
+
+namespace Sparrow.Props.C08.TranslatedKang
+open Sparrow Sparrow.Generated.Patches
+
+/-- `PatchesKang.__init__` (translated) agrees with the model grid exactly as `_create_patches` does -/
+theorem patchesKangInit_eq [Cmp α] [Add α] [Sub α] [Mul α] [Div α] [ToBin α] [NatCast α]
+    (w : Quad α) (p : α) (junk2 : Nat → Nat → Nat → α) :
+    CreatePatchesAgree w junk2 (patchesKangInit w 4 3 p junk2) (grid w p) :=
+  Sparrow.patchesKangInit_eq w p junk2
+
+/-- **Both engines tile alike**: the translated `_create_patches` and the translated loop of
+    `PatchesKang.__init__` return the same count and the same patches, for every wall, patch size, scalar type
+    and whatever the buffers held. -/
+theorem engines_tile_alike [Cmp α] [Add α] [Sub α] [Mul α] [Div α] [ToBin α] [NatCast α]
+    (w : Quad α) (p : α) (junk1 : Nat → α) (junk2 junk3 : Nat → Nat → Nat → α) :
+    match createPatches w 4 3 p junk1 junk2, patchesKangInit w 4 3 p junk3 with
+    | some (n, A), some (n', A') => n = n' ∧ ∀ k v a, k < n → v < 4 → A k v a = A' k v a
+    | none, none => True
+    | _, _ => False :=
+  Sparrow.engines_tile_alike w p junk1 junk2 junk3
+
+end Sparrow.Props.C08.TranslatedKang
